@@ -25,6 +25,29 @@ theorem header_eq_iff :
       (x.2.header x.1 = y.2.header y.1 ↔ (x.2.h1 x.1 = y.2.h1 y.1 ∧ x.2.h2 x.1 = y.2.h2 y.1)) := by
   decide +kernel
 
+/-- key classes that are *meant* to share a text form (stated from the documents, independently of the code's
+    constants): `Public`/`PkePublic` and `Secret`/`PkeSecret` -/
+def kindClass : Kind → Nat
+  | .localK => 0 | .publicK => 1 | .pkePublic => 1 | .secretK => 2 | .pkeSecret => 2
+
+/-- class of a text form: equal classes are the intended aliases -/
+def formClass : Form → Nat × Nat
+  | .tok p => (0, match p with | .localP => 0 | .publicP => 1)
+  | .key k => (1, kindClass k)
+  | .id k => (2, kindClass k)
+  | .pie k => (3, match k with | .localK => 0 | .secretK => 2)
+  | .pw k => (4, match k with | .localK => 0 | .secretK => 2)
+  | .sealK => (5, 0)
+
+/-- **The only aliases are the intended ones.**  Over the whole table extracted from the running code: two
+    (back end, form) pairs have the same full header exactly when they have the same protocol version
+    and the same form class.  In particular no id / key / wrap form of one kind shares a header with another
+    kind, purpose or version. -/
+theorem aliases_exactly_intended :
+    ∀ x ∈ allForms, ∀ y ∈ allForms,
+      (x.2.header x.1 = y.2.header y.1 ↔ (x.1.version = y.1.version ∧ formClass x.2 = formClass y.2)) := by
+  decide +kernel
+
 /-- distinct versions have distinct headers (tokens and PASERK) -/
 theorem versions_distinct : ∀ b ∈ Backend.all, ∀ b' ∈ Backend.all, b.version ≠ b'.version →
     Extracted.versionHeader b ≠ Extracted.versionHeader b' ∧
